@@ -270,11 +270,29 @@ fn print(v: &Value, path: &mut Path, dup: &[Path], out: &mut String) {
 
 // ---- documents ------------------------------------------------------------------------------------
 
-pub const DOCS: [&str; 11] = ["Dual", "Dual2", "Cal", "UnionCal", "NamedCal", "FXRates", "FXRates1", "Curve", "PPSplineF64", "PPSplineDual", "PPSplineDual2"];
+pub const DOCS: [&str; 17] = ["Dual", "Dual2", "Cal", "UnionCal", "NamedCal", "FXRates", "FXRates1", "Curve", "PPSplineF64", "PPSplineDual", "PPSplineDual2", "Dual0", "Dual2_1", "CalEmpty", "UnionNone", "CurveFlat0", "Curve2"];
 
 fn valid_obj(doc: &str) -> VerifObj {
     match doc {
         "Dual" => VerifObj::Dual(Dual::try_new(1.5, vec!["x".into(), "y".into()], vec![1.0, 2.0]).unwrap()),
+        "Dual0" => VerifObj::Dual(Dual::new(-2.5, vec![])),
+        "Dual2_1" => VerifObj::Dual2(Dual2::try_new(0.5, vec!["x".into()], vec![3.0], vec![0.125]).unwrap()),
+        "CalEmpty" => VerifObj::Cal(Cal::new(vec![], vec![])),
+        "UnionNone" => VerifObj::UnionCal(UnionCal::new(vec![Cal::new(vec![to_ndt(19800)], vec![5, 6]), Cal::new(vec![], vec![4, 5])], None)),
+        "CurveFlat0" => {
+            let mut m: IndexMap<chrono::NaiveDateTime, Number> = IndexMap::new();
+            m.insert(to_ndt(19365), Number::F64(0.97));
+            m.insert(to_ndt(19000), Number::F64(1.0));
+            VerifObj::Curve(
+                VerifCurve::new(m, VerifInterp::FlatForward, ADOrder::Zero, "f", Convention::Bus252, Modifier::P, CalType::UnionCal(UnionCal::new(vec![Cal::new(vec![], vec![5, 6])], Some(vec![]))), None).unwrap(),
+            )
+        }
+        "Curve2" => {
+            let mut m: IndexMap<chrono::NaiveDateTime, Number> = IndexMap::new();
+            m.insert(to_ndt(19000), Number::Dual(Dual::new(1.0, vec!["n0".into()])));
+            m.insert(to_ndt(19365), Number::F64(0.97));
+            VerifObj::Curve(VerifCurve::new(m, VerifInterp::LinearZeroRate, ADOrder::Two, "g", Convention::ActActISDA, Modifier::Act, CalType::Cal(Cal::new(vec![to_ndt(19100)], vec![5, 6])), Some(1.0)).unwrap())
+        }
         "Dual2" => VerifObj::Dual2(Dual2::try_new(1.5, vec!["x".into(), "y".into()], vec![1.0, 2.0], vec![0.5, 0.25, 0.25, 1.0]).unwrap()),
         "Cal" => VerifObj::Cal(Cal::new(vec![to_ndt(19800), to_ndt(19801)], vec![5, 6])),
         "UnionCal" => VerifObj::UnionCal(UnionCal::new(vec![Cal::new(vec![to_ndt(19800)], vec![5, 6])], Some(vec![Cal::new(vec![], vec![6])]))),
@@ -326,13 +344,13 @@ fn load(doc: &str, tagged: bool, text: &str) -> Result<VerifObj, String> {
     }
     let e = |e: serde_json::Error| e.to_string();
     Ok(match doc {
-        "Dual" => VerifObj::Dual(serde_json::from_str(text).map_err(e)?),
-        "Dual2" => VerifObj::Dual2(serde_json::from_str(text).map_err(e)?),
-        "Cal" => VerifObj::Cal(Cal::from_json(text).map_err(e)?),
-        "UnionCal" => VerifObj::UnionCal(UnionCal::from_json(text).map_err(e)?),
+        "Dual" | "Dual0" => VerifObj::Dual(serde_json::from_str(text).map_err(e)?),
+        "Dual2" | "Dual2_1" => VerifObj::Dual2(serde_json::from_str(text).map_err(e)?),
+        "Cal" | "CalEmpty" => VerifObj::Cal(Cal::from_json(text).map_err(e)?),
+        "UnionCal" | "UnionNone" => VerifObj::UnionCal(UnionCal::from_json(text).map_err(e)?),
         "NamedCal" => VerifObj::NamedCal(NamedCal::from_json(text).map_err(e)?),
         "FXRates" | "FXRates1" => VerifObj::FXRates(FXRates::from_json(text).map_err(e)?),
-        "Curve" => VerifObj::Curve(VerifCurve::from_json(text)?),
+        "Curve" | "CurveFlat0" | "Curve2" => VerifObj::Curve(VerifCurve::from_json(text)?),
         "PPSplineF64" => VerifObj::PPSplineF64(serde_json::from_str(text).map_err(e)?),
         "PPSplineDual" => VerifObj::PPSplineDual(serde_json::from_str(text).map_err(e)?),
         _ => VerifObj::PPSplineDual2(serde_json::from_str(text).map_err(e)?),
@@ -980,7 +998,7 @@ fn evidence_meta(ctx: &Ctx, ncases: usize) -> Meta {
          masks x holiday patterns; add_months from 16 start dates for EVERY offset landing in 1970-2200 (up to +-2772) x \
          35 roll kinds x 5 modifiers x 2 flags. csolve: k = 2..4 (5) x ten site layouts (proper, too few, too many, \
          empty, all equal, all in the first span, outside the domain, descending, NaN, many) x y-length -1/0/+1 x \
-         left_n, right_n in 0..k+1 x allow_lsq, for f64 and Dual data. JSON: for one valid document of each of 11 \
+         left_n, right_n in 0..k+1 x allow_lsq, for f64 and Dual data. JSON: for 17 valid documents covering the 10 \
          object kinds, through the typed and the tagged entry point: EVERY single mutation (delete a field or element, \
          duplicate an element, duplicate a field textually, replace a leaf by each of {0,-1,1e308,\"\",\"zzz\",null,[], \
          {},true} or a container by {0,null,[],{}}, swap two sibling values) and, for documents of <= 26 (44) nodes, \
